@@ -47,6 +47,17 @@ class Tables:
             if ch[1] not in dict(self.p.enums[ch[0]]):
                 raise AnalysisError(f"{ch[0]}.{ch[1]} is not an enum member")
             return (ch[0], ch[1])
+        if isinstance(e, ast.Call) and isinstance(e.func, ast.Name) and e.func.id in self.p.module_funcs and not e.keywords:
+            # a table built by a small module-level function from literal rows: the function is run on them (same evaluator as VS)
+            args = [self.ev(a) for a in e.args]
+            iv = IntEval.__new__(IntEval)
+            iv.p, iv.t, iv.cof = self.p, self, []
+            out = iv.call(e.func.id, args)
+            if isinstance(out, dict):
+                return {self._h(k): v for k, v in out.items()}
+            if isinstance(out, (list, tuple)):
+                return out
+            raise AnalysisError(f"table entry `{short(e)}`: the builder does not return a table ({out!r})")
         raise AnalysisError(f"table entry `{short(e)}` is not a literal")
 
     @staticmethod
@@ -304,6 +315,10 @@ class IntEval:
     def call(self, q: str, args: list[int]):
         fi = self.p.func(q)
         env = dict(zip(fi.params, args))
+        va = fi.node.args.vararg
+        if va is not None:
+            npos = len(fi.node.args.posonlyargs) + len(fi.node.args.args)
+            env[va.arg] = tuple(args[npos:])
         return self.block(fi.node.body, env)
 
     class _Return(Exception):
@@ -336,6 +351,23 @@ class IntEval:
         elif isinstance(s, ast.AugAssign) and isinstance(s.target, ast.Name):
             fake = ast.BinOp(left=ast.Name(id=s.target.id, ctx=ast.Load()), op=s.op, right=s.value)
             env[s.target.id] = self.ev(fake, env)
+        elif isinstance(s, ast.Assign) and len(s.targets) == 1 and isinstance(s.targets[0], ast.Subscript) and isinstance(s.targets[0].value, ast.Name):
+            base = self.ev(s.targets[0].value, env)
+            k = self.ev(s.targets[0].slice, env)
+            if not isinstance(base, (dict, list)):
+                raise AnalysisError(f"value-set evaluator: store into `{short(s.targets[0].value)}`")
+            base[tuple(k) if isinstance(k, list) else k] = self.ev(s.value, env)
+        elif isinstance(s, ast.For) and isinstance(s.target, ast.Tuple) and all(isinstance(x, ast.Name) for x in s.target.elts) and not s.orelse:
+            it = self.ev(s.iter, env)
+            if not isinstance(it, (list, tuple)):
+                raise AnalysisError(f"value-set evaluator: loop over `{short(s.iter)}`")
+            for v in list(it)[:4096]:
+                if not isinstance(v, (list, tuple)) or len(v) != len(s.target.elts):
+                    raise IntEval._Return(("VALUE-ERROR", "unpack"))
+                for nm, x in zip(s.target.elts, v):
+                    env[nm.id] = x
+                for x in s.body:
+                    self.stmt(x, env)
         elif isinstance(s, ast.For) and isinstance(s.target, ast.Name) and not s.orelse:
             it = self.ev(s.iter, env)
             if not isinstance(it, (list, tuple, range)):
@@ -374,6 +406,17 @@ class IntEval:
             return env[e.id]
         if isinstance(e, ast.List):
             return [self.ev(x, env) for x in e.elts]
+        if isinstance(e, ast.Tuple):
+            return tuple(self.ev(x, env) for x in e.elts)
+        if isinstance(e, ast.Dict) and all(k is not None for k in e.keys):
+            return {self.ev(k, env): self.ev(v, env) for k, v in zip(e.keys, e.values)}
+        if isinstance(e, ast.Call) and isinstance(e.func, ast.Name) and e.func.id == "dict" and not e.args and not e.keywords:
+            return {}
+        if isinstance(e, ast.Call) and isinstance(e.func, ast.Name) and e.func.id == "zip" and not e.keywords:
+            seqs = [self.ev(a, env) for a in e.args]
+            if all(isinstance(x, (list, tuple)) for x in seqs):
+                return list(zip(*seqs))                     # like the built-in: stops at the shortest
+            return ("TYPE-ERROR", src(e))
         if isinstance(e, ast.ListComp) and len(e.generators) == 1 and isinstance(e.generators[0].target, ast.Name):
             g = e.generators[0]
             it = self.ev(g.iter, env)
@@ -431,6 +474,8 @@ class IntEval:
             v = self.ev(e.value, env)
             if isinstance(v, tuple) and v[0] == "Note":
                 return v[1]
+            if isinstance(v, tuple) and len(v) == 2 and v[0] in self.p.enums and v[0] != "Note" and v[1] in dict(self.p.enums[v[0]]):
+                return dict(self.p.enums[v[0]])[v[1]]           # the declared value of an enum member (`Key.C.value` is "C")
             if isinstance(v, tuple) and v and isinstance(v[0], str) and v[0].endswith("-ERROR"):
                 return v            # the subscript would have raised: the exception is the result
             raise AnalysisError(f"value-set evaluator: .value of `{short(e.value)}`")
